@@ -69,7 +69,9 @@ def run(ctx) -> None:
     def s_perf(I, func, self_val, args, kwargs, node, fr):
         I.run.user.setdefault("perf_calls", []).append(self_val)
         return Unknown("RESULT")
-    Ic = make_interp(ctx.p, {"MasterOfPuppets.__init__": s_init, "MasterOfPuppets.perform_matching": s_perf,
+    from ..matchflow import load_file_summary, produce_regex_summary
+    base = {"Yaml2Regex.load_file": load_file_summary, "Yaml2Regex.produce_regex": produce_regex_summary}
+    Ic = make_interp(ctx.p, {**base, "MasterOfPuppets.perform_matching": s_perf,
                              "parse_args_from_console": lambda I, f, s, a, k, n, fr: Unknown("args", {"truthy": True, "expr": "args", "not_none": True}),
                              "configure_logger": lambda I, f, s, a, k, n, fr: I.run.user.setdefault("conf_logger", []).append(k) or NONE})
     mainf = ctx.p.find_func("main")
@@ -78,7 +80,7 @@ def run(ctx) -> None:
     if not rets:
         ctx.fail("C20.L3.same-engine-once", "main", "main() never returns", "main never completes")
     for p in rets:
-        inits = p.run.user.get("mop_inits", [])
+        inits = [(e.args, e.kwargs) for e in p.events if e.kind == "construct" and e.cls == "MasterOfPuppets"]
         perfs = p.run.user.get("perf_calls", [])
         ctx.check(len(inits) == 1 and len(perfs) == 1, "C20.L3.same-engine-once", "main",
                   f"{len(inits)} MasterOfPuppets / {len(perfs)} perform_matching calls",
@@ -113,7 +115,7 @@ def run(ctx) -> None:
     for exc_name in ("BinaryFileFormatNotSupported", "ValueError", "FileNotFoundError"):
         def failing(I, func, self_val, args, kwargs, node, fr, exc_name=exc_name):
             I.raise_exc(exc_name, [Str.lit("boom")], node, fr)
-        If = make_interp(ctx.p, {"MasterOfPuppets.__init__": s_init, "MasterOfPuppets.perform_matching": failing,
+        If = make_interp(ctx.p, {**base, "MasterOfPuppets.perform_matching": failing,
                                  "parse_args_from_console": lambda I, f, s, a, k, n, fr: Unknown("args", {"truthy": True, "expr": "args"}),
                                  "configure_logger": lambda I, f, s, a, k, n, fr: NONE})
         fp = If.explore(lambda I: I.call_func(mainf, [], {}, None, None, None))
